@@ -30,6 +30,9 @@ def sample_dist_cfg(rng, kinds=None):
             if not cfg["encoder"]:
                 # identity encoder: the context itself carries the parameters
                 cfg["ctx"] = int(np.prod(shape)) * (2 if kind == "cond_diag" else 1)
+                if len(shape) > 1 and rng.random() < 0.5:
+                    # ... in the layout of the event (last axis doubled for mean / log-std) instead of flat
+                    cfg["ctx_layout"] = "structured"
         return cfg
     res = bool(rng.random() < 0.5)
     return {"dist": "mademog", "features": int(rng.integers(1, 4)), "hidden": int(rng.choice([4, 8])),
@@ -84,7 +87,10 @@ def dist_meta(cfg):
     if k == "mademog":
         return {"shape": [cfg["features"]], "ctx_shape": [cfg["ctx"]] if cfg["ctx"] else None, "needs_ctx": False,
                 "can_sample": True, "has_mean": False, "discrete": False}
-    return {"shape": cfg["shape"], "ctx_shape": [cfg["ctx"]] if cfg.get("ctx") else None,
+    ctx_shape = [cfg["ctx"]] if cfg.get("ctx") else None
+    if cfg.get("ctx_layout") == "structured" and not cfg.get("encoder"):
+        ctx_shape = list(cfg["shape"][:-1]) + [cfg["shape"][-1] * (2 if k == "cond_diag" else 1)]
+    return {"shape": cfg["shape"], "ctx_shape": ctx_shape,
             "needs_ctx": k in ("cond_diag", "bernoulli"), "can_sample": k != "diag", "has_mean": True,
             "discrete": k == "bernoulli"}
 
